@@ -275,6 +275,11 @@ func (m *MonC04) Probe(idx int) {
 	tol, _ := new(big.Float).SetRat(budget(new(big.Rat).Mul(ratInt(mid.Assets[den].TotalTokens), sharePrice(mid, val, den)), 0, 24)).Int(nil)
 	lim := new(big.Int).Add(ain, tol)
 	if bal.Cmp(lim) > 0 {
+		if a0 := s.Assets[den]; a0.TotalValidatorShares.IsZero() && a0.TotalTokens.IsPositive() {
+			rep.KnownFinding("C04", "orphaned-total", "a fresh delegation of %s%s reports a balance of %s: the asset's staked total of %s has no validator shares and is credited to the next depositor", a, den, bal, a0.TotalTokens)
+			rep.Class("C04.known.orphaned-total")
+			return
+		}
 		if _, ok := dustCapture(s, mid, den, pk, new(big.Rat).SetInt(ain), ratI64(1)); ok {
 			rep.KnownFinding("C04", "dust-capture", "a fresh delegation of %s%s to %s reports a balance of %s (dust left on the validator is captured)", a, den, w.Name(val), bal)
 			return
@@ -479,6 +484,7 @@ func (m *MonC05) Probe(idx int) {
 			}
 			if (strings.Contains(res.Err, "insufficient delegation shares") || strings.Contains(res.Err, "insufficient tokens")) && bal.Cmp(big.NewInt(1)) > 0 {
 				b2ctx, _ := w.Ctx.CacheContext()
+				m.R.TopUpPool(b2ctx) // the retry must not depend on the pool's solvency (judged separately)
 				r1 := w.RunMsgOn(b2ctx, m.R.buildMsg(Step{K: "claim", A: a, V: vi, Den: pk.Denom}), true)
 				r2 := w.RunMsgOn(b2ctx, m.R.buildMsg(Step{K: "undelegate", A: a, V: vi, Den: pk.Denom, Amt: new(big.Int).Sub(bal, big.NewInt(1)).String()}), true)
 				if os.Getenv("VMON_DEBUG") != "" {
